@@ -1,7 +1,7 @@
 (** Harness glue for C01: for every string a function returns — where it sits in the argument,
     whether it is valid UTF-8, whether it starts and ends on char boundaries. *)
 From Coq Require Import List ZArith Bool String.
-From KV Require Import Base.Prelude Model.Utf8 Spec.Utf8 Model.Search Model.Trim Model.Parser Glue.Val Glue.C13.
+From KV Require Import Base.Prelude Model.Utf8 Spec.Utf8 Model.Search Model.Trim Model.Parser Model.MemCell Glue.Val Glue.C13.
 Import ListNotations.
 Local Open Scope string_scope.
 
@@ -51,6 +51,69 @@ Definition parser_fact (orig : list Z) (r : pres) : string :=
   | PPanic => "PANIC"
   end.
 
+
+(* ------------------------------------------------------------------ thin wrappers (Model/MemCell.v) *)
+(** values are rendered by their number; every value of the zero-sized type prints as 0 *)
+Definition wv (ty v : Z) : string := if (ty =? 3)%Z then "0" else show_Z v.
+Definition show_refv (ty : Z) (r : Z * Z) : string := show_Z (fst r) ++ ":" ++ wv ty (snd r).
+Definition show_orefv (ty : Z) (o : option (Z * Z)) : string :=
+  match o with Some r => show_refv ty r | None => "UB" end.
+
+Definition c01_mu (ty v : Z) : string :=
+  let '(c, r) := mu_write (@uninit Z) v in
+  show_fields
+    [("w", show_refv ty r);
+     ("ref", show_orefv ty (mu_assume_init_ref c));
+     ("p", show_Z (mu_as_ptr c));
+     ("mp", show_Z (mu_as_ptr c));
+     ("mut", show_orefv ty (mu_assume_init_ref c));
+     ("init", match mu_assume_init c with Some x => wv ty x | None => "UB" end)].
+
+Definition c01_md (ty v : Z) : string :=
+  show_fields
+    [("in", show_refv ty (md_as_inner v));
+     ("inm", show_refv ty (md_as_inner v));
+     ("take", wv ty (md_take v))].
+
+(** the object sits at an arbitrary non-null address; references are shown relative to it *)
+Definition obj_addr : Z := 4096.
+Definition show_optref (ty v : Z) (o : option Z) : string :=
+  show_opt (fun r => show_Z (r - obj_addr) ++ ":" ++ wv ty v) o.
+Definition show_optaddr (o : option Z) : string := show_opt (fun r => show_Z (r - obj_addr)) o.
+Definition c01_ptr (ty v : Z) : string :=
+  show_fields
+    [("null_ref", show_optref ty v (ptr_as_ref 0));
+     ("ref", show_optref ty v (ptr_as_ref obj_addr));
+     ("null_mut", show_optref ty v (ptr_as_ref 0));
+     ("mut", show_optref ty v (ptr_as_ref obj_addr));
+     ("is_null", show_bool (ptr_is_null 0) ++ show_bool (ptr_is_null obj_addr));
+     ("nn_null", show_optaddr (nonnull_new 0));
+     ("nn", show_optaddr (nonnull_new obj_addr));
+     ("nn_ref", show_Z (nonnull_from_ref obj_addr - obj_addr) ++ ":" ++ wv ty v);
+     ("nn_mut", show_Z (nonnull_from_ref obj_addr - obj_addr) ++ ":" ++ wv ty v);
+     ("from_ref", show_Z (nonnull_from_ref obj_addr - obj_addr));
+     ("from_mut", show_Z (nonnull_from_ref obj_addr - obj_addr))].
+
+(** unsized pointees: the metadata (length n) rides along unchanged *)
+Definition c01_ptrs (n : Z) : string :=
+  let sl (o : option Z) := show_opt (fun r => show_Z (r - obj_addr) ++ ":" ++ show_Z n) o in
+  show_fields
+    [("null_ref", sl (ptr_as_ref 0));
+     ("ref", sl (ptr_as_ref obj_addr));
+     ("null_mut", sl (ptr_as_ref 0));
+     ("mut", sl (ptr_as_ref obj_addr));
+     ("is_null", show_bool (ptr_is_null 0) ++ show_bool (ptr_is_null obj_addr));
+     ("nn_null", sl (nonnull_new 0));
+     ("nn", sl (nonnull_new obj_addr));
+     ("from_ref", show_Z (nonnull_from_ref obj_addr - obj_addr) ++ ":" ++ show_Z n)].
+
+Definition c01_arr (ty : Z) (n : nat) (v : Z) : string :=
+  let vals := map (fun k => v + Z.of_nat k)%Z (seq 0 n) in
+  match array_assume_init (write_all (uninit_array n) 0 vals) with
+  | Some l => show_list (wv ty) l
+  | None => "UB"
+  end.
+
 Definition c01_run (fam : string) (args : list val) : option string :=
   if String.eqb fam "c01.str" then
     match args with [h; n] => Some (c01_pat (as_bytes h) (as_bytes n)) | _ => None end
@@ -58,6 +121,16 @@ Definition c01_run (fam : string) (args : list val) : option string :=
     match args with [h; c] => Some (c01_pat (as_bytes h) (encode_m (as_Z c))) | _ => None end
   else if String.eqb fam "c01.ws" then
     match args with [h] => Some (c01_ws (as_bytes h)) | _ => None end
+  else if String.eqb fam "c01.mu" then
+    match args with [ty; v] => Some (c01_mu (as_Z ty) (as_Z v)) | _ => None end
+  else if String.eqb fam "c01.md" then
+    match args with [ty; v] => Some (c01_md (as_Z ty) (as_Z v)) | _ => None end
+  else if String.eqb fam "c01.ptr" then
+    match args with [ty; v] => Some (c01_ptr (as_Z ty) (as_Z v)) | _ => None end
+  else if String.eqb fam "c01.ptrs" then
+    match args with [n] => Some (c01_ptrs (as_Z n)) | _ => None end
+  else if String.eqb fam "c01.arr" then
+    match args with [ty; n; v] => Some (c01_arr (as_Z ty) (Z.to_nat (as_Z n)) (as_Z v)) | _ => None end
   else if String.eqb fam "c01.parser" then
     match args with
     | [orig; ops] =>
